@@ -33,6 +33,8 @@ STRINGS = [
     ('weights', '{[#A][#B]}.{#A=[O;0.5]([H;0.2])[C;0.1][$],#B=[$]C[C;2]O}'),
     ('benzene3', '{[#TC5]1[#TC5][#TC5]1}.{#TC5=[$]cc[$]}'),
     ('sulfone', '{[#A][#B]}.{#A=CS(=O)(=O)[$],#B=[$]C}'),
+    # a system of three molecules (each is less than half of the atoms)
+    ('three', '{[#A][#B].[#A][#B].[#A][#B]}.{#A=CC[$],#B=[$]O}'),
 ]
 SMILES = ['CCO', 'C1CCCCC1', 'c1ccccc1', 'CC(=O)[O-]', 'CCC[NH3+]', 'CCC#N', 'CCOC', 'CC(Cl)=C', 'C[N+](C)(C)C', 'OCC(O)CO']
 
@@ -186,6 +188,21 @@ def evaluate(inp):
             else:
                 cls += ':bond-order'
             return bad(cls, None, {'source': inp['source']}, nontrivial=nontrivial)
+        if not inp['conformer']:
+            # history: the same graph object is edited in place (no atom or bond added) and converted again
+            swap = {'O': 'S', 'N': 'P'}
+            tgt = [n for n, d in g.nodes(data=True) if d.get('element') in swap and not d.get('charge', 0) and not d.get('aromatic')]
+            if tgt:
+                g.nodes[tgt[0]]['element'] = swap[g.nodes[tgt[0]]['element']]
+                try:
+                    back2 = cr.rdkit_to_networkx(cr.networkx_to_rdkit(g))
+                except Exception as e:
+                    return bad('history:second-conversion-raises:' + type(e).__name__, None, {'error': repr(e)[:150]}, nontrivial=nontrivial)
+                want = sorted(d.get('element') for _, d in g.nodes(data=True) if d.get('element') != 'H')
+                got = sorted(d.get('element') for _, d in back2.nodes(data=True) if d.get('element') != 'H')
+                if want != got:
+                    return bad('history:conversion-after-an-in-place-edit-returns-the-old-molecule', want, {'elements': got, 'source': inp['source']},
+                               nontrivial=nontrivial)
         if inp['conformer']:
             for n, d in back.nodes(data=True):
                 p = d.get('position')
